@@ -316,7 +316,8 @@ pub fn run(tier: Tier) -> Report {
                 Outcome::Ok(c) => (pipe::emit(&c, shell).unwrap_or_default(), pipe::dfa_dot(&c, shell).unwrap_or_default()),
                 _ => continue,
             };
-            for i in 0..tier.pick(1500, 20000) {
+            let reps = if text.len() > 400 { tier.pick(60, 1000) } else { tier.pick(600, 20000) };
+            for i in 0..reps {
                 twin_reps += 1;
                 if let Outcome::Ok(c) = pipe::compile(text, shell) {
                     let again = (pipe::emit(&c, shell).unwrap_or_default(), pipe::dfa_dot(&c, shell).unwrap_or_default());
@@ -358,7 +359,7 @@ pub fn run(tier: Tier) -> Report {
     rep.cov("in_process_repetitions", J::i(reps as i64));
     rep.cov(
         "rule",
-        J::s("controlled-nondeterminism sweep (exhaustive over the configuration matrix, a sweep of the 2^128 seed space): grammars = two synthetic wide grammars (40 equal-length literals, 8 commands under ||, 7 within-word automata of equal and different shape; second one with every list reversed) + corpus + examples/*.usage; x 4 shells; outputs = script, --dfa file, --regex file; configurations = hash seeds 0..K-1 through an LD_PRELOAD getrandom shim (owning std's RandomState), a replay of seed 0, ASLR off with and without the shim, OS randomness, empty / large / odd environment, other cwd, grammar on stdin. All must equal the seed-0 run byte for byte. In-process histories: every single file, every order of three (thorough: four) grammars and a repetition history are compiled inside one fresh worker process each; every file's three output hashes must be the same in all histories, and equal to a fresh binary's bytes. In-process repetition on all trees <= 3 (4) nodes, and 1500 (20000) repetitions of grammars with twin within-word expressions (each compile uses freshly keyed interning tables). distinct = distinct (grammar, shell, configuration)."),
+        J::s("controlled-nondeterminism sweep (exhaustive over the configuration matrix, a sweep of the 2^128 seed space): grammars = two synthetic wide grammars (40 equal-length literals, 8 commands under ||, 7 within-word automata of equal and different shape; second one with every list reversed) + corpus + examples/*.usage; x 4 shells; outputs = script, --dfa file, --regex file; configurations = hash seeds 0..K-1 through an LD_PRELOAD getrandom shim (owning std's RandomState), a replay of seed 0, ASLR off with and without the shim, OS randomness, empty / large / odd environment, other cwd, grammar on stdin. All must equal the seed-0 run byte for byte. In-process histories: every single file, every order of three (thorough: four) grammars and a repetition history are compiled inside one fresh worker process each; every file's three output hashes must be the same in all histories, and equal to a fresh binary's bytes. In-process repetition on all trees <= 3 (4) nodes, and 600 (20000) repetitions of grammars with twin within-word expressions (each compile uses freshly keyed interning tables). distinct = distinct (grammar, shell, configuration)."),
     );
     rep.cov("exhaustive", J::Bool(false));
     rep.cov("samples", J::Arr(samples.items));
